@@ -1340,3 +1340,12 @@ package collection
 //@     invariant index == pos(iterator) + 1 && snap(iterator) == ks && 0 <= pos(iterator) && pos(iterator) <= size && len(ks) == size && len(view(values)) == size && fresh(values) && this != nil
 //@     invariant forall k U :: (dom(this, k) <==> old(dom(this, k)) && !kin(ks[0:pos(iterator)], k)) && (dom(this, k) ==> get(this, k) == old(get(this, k)))
 //@     decreases size - pos(iterator)
+
+// ---------------------------------------------------------------- queue as seen by sequential clients (parser)
+
+// nonnilq(q): every value ever added to q is non-nil (a property of the producer, used by the CDCN parser)
+//@ declare nonnilq(U) Bool
+//@ iface QueueLike.RemoveHead
+//@   nopanic
+//@   modifies view(this)
+//@   ensures result.1 && nonnilq(this) ==> result.0 != nil
